@@ -57,7 +57,7 @@ def model(ctx, alphabet, maxlen, maxnoise, export, stride=1, pick=0):
         f.write(f"CONSTANTS\n Alphabet = {{{', '.join(map(str, alphabet))}}}\n MaxLen = {maxlen}\n MaxNoise = {maxnoise}\n"
                 f' Kinds = {{"clean", "flip", "nocheck"}}\n Stride = {stride}\n Pick = {pick}\nSPECIFICATION Spec\n'
                 + ("INVARIANT Export\n" if export else "INVARIANT ScenarioOk\n") + "CHECK_DEADLOCK FALSE\n")
-    r = vlib.tlc(ctx, "MC_Hdlc", cfg, workers=6 if export else 14, timeout=1700, xmx="12g")
+    r = vlib.tlc(ctx, "MC_Hdlc", cfg, workers=6 if export else 14, timeout=3400, xmx="12g")
     if r.violated or not r.ok:
         raise vlib.ToolError(f"Hdlc.tla: deframer automaton violates the property on the model: {r.violated}\n{r.out[-2500:]}")
     if not export:
@@ -175,8 +175,10 @@ def run(ctx):
     th = ctx.thorough()
     rnd = random.Random(ctx.seed)
     if th:
-        model(ctx, [0, 255, 126, 63], 3, 3, False)
-        model(ctx, [0, 255, 126], 2, 2, False)
+        # (4 bytes, payload <= 3, noise <= 3 took about 25 minutes on an idle machine and ran into the
+        # time limit on a loaded one: noise <= 2 with the large alphabet, noise <= 3 with the small one)
+        model(ctx, [0, 255, 126, 63], 3, 2, False)
+        model(ctx, [0, 255, 126], 2, 3, False)
         stride, nrand, nchunk = 7, 1500, 3
     else:
         model(ctx, [0, 255, 126], 2, 2, False)
